@@ -83,7 +83,7 @@ $(B)/eng/%.o: $(VERIF)/engines/%.cc $(CFGDEP)
 define ENGINE_RULE
 $(B)/bin/$(1): $$(patsubst $(VERIF)/engines/%.cc,$(B)/eng/%.o,$$(wildcard $(VERIF)/engines/$(1).cc $(VERIF)/engines/$(1)__*.cc)) $(B)/libppl.a
 	@mkdir -p $(B)/bin
-	$(CXX) $(BASEFLAGS) $(VFLAGS) $$(filter %.o,$$^) $(B)/libppl.a -lgmpxx -lgmp -ldl -o $$@
+	$(CXX) $(BASEFLAGS) $(VFLAGS) $$(filter %.o,$$^) $(B)/lib/assertions.o $(B)/libppl.a -lgmpxx -lgmp -ldl -o $$@
 endef
 $(foreach e,$(ENGINES),$(eval $(call ENGINE_RULE,$(e))))
 
